@@ -111,7 +111,7 @@ def gen_c08(tier, seed):
         act = (at, r.choice("WX"), r.randrange(8)) if at else None
         c = build_c08_case("c08-%d" % idx, kinds, r.choice(TIMEOUTS), act, r, 1)
         if r.random() < 0.2:
-            c = Case(c.id, "F 0 poll 0 %d ; %s" % (40000 + r.choice([1, 5, 15, 35]), c.script), c.meta, c.sig + "/intr")
+            c = Case(c.id, c.script.replace(" ; PL ", " ; FR poll 0 %d ; PL " % (40000 + r.choice([1, 5, 15, 35])), 1), c.meta, c.sig + "/intr")
         cases.append(c)
         idx += 1
     # a failed start with a deadline must not leave that deadline on a handle that is started again
@@ -144,13 +144,16 @@ def gen_c08(tier, seed):
                     o = {"dl": dl, "stop": KILL_POLICY}
                     parts = ["N 0", start_tokens(0, o)]
                     pre0 = pre
+                    intr = None
                     if pre < 0:
-                        parts.insert(0, "F 0 poll 0 %d" % (40000 - pre))
+                        intr = "FR poll 0 %d" % (40000 - pre)   # armed right before the first wait
                         pre = 0
                     if ex is not None:
                         parts.append("E 0 %d X %d" % (ex, r.randrange(256)))
                     if pre:
                         parts.append("Z %d" % pre)
+                    if intr:
+                        parts.append(intr)
                     parts.append("W 0 %d" % to)
                     parts.append("W 0 %d" % to)
                     parts.append("D 0")
